@@ -374,7 +374,15 @@ func init() {
 			return errors.WithSafeDetails(k[0], f, a...)
 		}})
 	def(WTelemetry, KindInfo{Slots: "SS", Name: "errors.WithTelemetry", Arity: Wrap, Groups: GLib | GAnnot,
-		build: func(n *Node, k, _ []error) error { return errors.WithTelemetry(k[0], n.S[0].V, n.S[1].V) }})
+		build: func(n *Node, k, _ []error) error {
+			var keys []string
+			for _, s := range n.S {
+				if s.V != "" {
+					keys = append(keys, s.V)
+				}
+			}
+			return errors.WithTelemetry(k[0], keys...)
+		}})
 	def(WDomain, KindInfo{Slots: "S", Name: "errors.WithDomain", Arity: Wrap, Groups: GLib | GAnnot,
 		build: func(n *Node, k, _ []error) error { return errors.WithDomain(k[0], errors.NamedDomain(n.S[0].V)) }})
 	def(WIssueLink, KindInfo{Slots: "SS", Name: "errors.WithIssueLink", Arity: Wrap, Groups: GLib | GAnnot,
